@@ -44,8 +44,13 @@ CIntEPs == CInt64EPs \cup CIntDEPs
 CPtrEPs == {"X_InflatePathsD", "X_InflatePathD", "X_RectClipD", "X_RectClipLinesD"}
 AllEPs  == ObjEPs \cup FreeEPs \cup EcEPs \cup MkEPs \cup CIntEPs \cup CPtrEPs
 
-TakesPrecision(ep) == ep \in ObjEPs \cup FreeEPs \cup CIntDEPs \cup CPtrEPs
-ScalesToInt(ep)    == ep \in ObjEPs \cup FreeEPs \cup EcIntEPs          \* coordinates are converted to int64 after scaling
+PrecEPs  == ObjEPs \cup FreeEPs \cup CIntDEPs \cup CPtrEPs
+ToIntEPs == ObjEPs \cup FreeEPs \cup EcIntEPs
+CEPs     == CIntEPs \cup CPtrEPs
+ErrChanEPs == ObjEPs \cup EcEPs                                        \* entry points with an error-code channel
+NoChanEPs  == FreeEPs \cup MkEPs                                       \* C++ entry points whose only channel is the result
+TakesPrecision(ep) == ep \in PrecEPs
+ScalesToInt(ep)    == ep \in ToIntEPs          \* coordinates are converted to int64 after scaling
 TakesScale(ep)     == ep \in EcEPs
 TakesCount(ep)     == ep \in MkEPs
 TakesEnums(ep)     == ep \in CIntEPs
@@ -76,7 +81,7 @@ Required(a) ==
   ELSE IF a.ep \in CIntEPs THEN "negative"                    \* "rejected with a negative return value"
   ELSE IF a.ep \in CPtrEPs THEN "null"                        \* no int to return: the array result is withheld
   ELSE IF a.exc = 1 THEN "exception"                          \* "reported through an exception"
-  ELSE IF a.ep \in ObjEPs \cup EcEPs THEN "errcode"           \* "through the error code" (the entry point has one)
+  ELSE IF a.ep \in ErrChanEPs THEN "errcode"                \* "through the error code" (the entry point has one)
   ELSE "empty"                                                \* "... together with an empty result" (only channel left)
 
 (* ---------------------------------------------------------------- the table's domain *)
@@ -117,22 +122,24 @@ ErrTable == [a \in Dom |-> Required(a)]
 (*   nul 1 iff a C export returned a null array                                         *)
 (*   unt 1 iff the solution arguments of an int-returning C export still hold the       *)
 (*       sentinel they were initialised with                                            *)
-Obs(th, err, ret, n, nul, unt) == [th |-> th, err |-> err, ret |-> ret, n |-> n, nul |-> nul, unt |-> unt]
+(*   cr  1 iff the call did not return at all (the process died in it: signal)          *)
+Obs(th, err, ret, n, nul, unt, cr) == [th |-> th, err |-> err, ret |-> ret, n |-> n, nul |-> nul, unt |-> unt, cr |-> cr]
 
 (* does observation o exhibit outcome oc?  (nmin = least size of a normal result,       *)
 (* nmax = greatest: both come from the fixture the call was made on, see GenC11)        *)
 Exhibits(oc, o, nmin, nmax) ==
-  CASE oc = "normal"    -> o.th = 0 /\ o.err <= 0 /\ o.ret = 0 /\ o.nul = 0 /\ o.unt = 0 /\ o.n >= nmin /\ o.n <= nmax
-    [] oc = "exception" -> o.th # 0
-    [] oc = "errcode"   -> o.th = 0 /\ o.err > 0
-    [] oc = "empty"     -> o.th = 0 /\ o.n = 0
-    [] oc = "negative"  -> o.th = 0 /\ o.ret < 0 /\ o.unt = 1
-    [] oc = "null"      -> o.th = 0 /\ o.nul = 1
+  /\ o.cr = 0      \* a call that kills the process exhibits no outcome at all
+  /\ CASE oc = "normal"    -> o.th = 0 /\ o.err <= 0 /\ o.ret = 0 /\ o.nul = 0 /\ o.unt = 0 /\ o.n >= nmin /\ o.n <= nmax
+        [] oc = "exception" -> o.th # 0
+        [] oc = "errcode"   -> o.th = 0 /\ o.err > 0
+        [] oc = "empty"     -> o.th = 0 /\ o.n = 0
+        [] oc = "negative"  -> o.th = 0 /\ o.ret < 0 /\ o.unt = 1
+        [] oc = "null"      -> o.th = 0 /\ o.nul = 1
 
 (* "reported" in the sense of the statement: some channel the entry point has says so *)
 Reported(a, o) == \/ o.th # 0
                   \/ o.err > 0
                   \/ o.ret < 0
                   \/ o.nul = 1
-                  \/ (a.exc = 0 /\ a.ep \in FreeEPs \cup MkEPs /\ o.n = 0)
+                  \/ (a.exc = 0 /\ a.ep \in NoChanEPs /\ o.n = 0)
 =============================================================================
